@@ -9,8 +9,6 @@ import (
 	"math/big"
 	"os"
 	"strings"
-
-	"github.com/bytemare/secp256k1"
 )
 
 type corpusEntry struct {
@@ -430,7 +428,7 @@ func (m *M) corpusElements(prop string) {
 			}
 		}
 		var rx, ry, rz *big.Int
-		if len(as) >= 2 && secp256k1.VerifAccessor {
+		if len(as) >= 2 && rawOK {
 			rx, ry, rz = rawWithStored(as[0], as[1])
 		}
 		if len(encs) == 0 && rx == nil {
